@@ -11,8 +11,9 @@ use crate::inputs::{InputKind, Policy};
 use crate::rng::{SplitMix64, Tape};
 use crate::trace::{first_divergence, reference_trace, with_parser, End, IterateAll, Prepared};
 
-pub const FIXED_CANDIDATES: [InputKind; 16] = [
+pub const FIXED_CANDIDATES: [InputKind; 17] = [
     InputKind::BufferedBare,
+    InputKind::MeteredStr,
     InputKind::Str,
     InputKind::Buffered,
     InputKind::Ring(8, Policy::PushBack),
@@ -126,7 +127,7 @@ pub fn execute(case: &Case, record_seed: Option<u64>) -> Outcome {
         out.summary = format!("reference {}", reference.end.describe());
     } else {
         // the megabyte cases go through one candidate of each kind
-        let mega = [InputKind::BufferedBare, InputKind::Str, InputKind::Ring(16, Policy::PerCall), InputKind::Ring(128, Policy::Leave), InputKind::Slice(64)];
+        let mega = [InputKind::BufferedBare, InputKind::MeteredStr, InputKind::Str, InputKind::Ring(16, Policy::PerCall), InputKind::Ring(128, Policy::Leave), InputKind::Slice(64)];
         let fixed: &[InputKind] = if case.gen == "X-family-mega" { &mega } else { &FIXED_CANDIDATES };
         for kind in fixed.iter().chain(case.extra_inputs.iter()) {
             clock::rearm(work_budget(n));
